@@ -225,7 +225,7 @@ Proof.
     assert (Ho : o < STRINGBUFBIT) by lia.
     cbn [length] in HlenD. cbn [length] in Hfuel.
     destruct fuel as [|fuel]; [lia|].
-    rewrite step_string by lia.
+    rewrite step_string by (unfold JSONVALUEMASK, STRINGBUFBIT in *; lia).
     rewrite lor_mk by (unfold two56, STRINGBUFBIT in *; lia).
     pose proof (in_bound_above _ Hsorted _ Hb) as Hab.
     set (D1 := tape_set (tape_set D off (mk_word TagString o)) (off + 1) len).
